@@ -19,9 +19,16 @@ PID = "C17"
 POOL = {"uniform": [], "normal": [], "dirichlet": []}   # standardised samples pooled over the run (moment tests at the end)
 
 
-def rand_init(rng, shape):
+def rand_init(rng, shape, cplx=False):
     kind = rng.choice(["const", "array", "dirichlet", "dirichlet", "uniform", "normal"])
     rank = len(shape)
+    if cplx:
+        # complex data type: constants and arrays with non-zero imaginary parts
+        if rng.random() < 0.5:
+            v = complex(gen.dy(rng, 1, 8, 4), gen.dy(rng, -8, 8, 4))
+            return "const", ConstantTensorInitializer(v), {"value": v}
+        v = gen.dy_array(rng, shape, -8, 8, 4, cplx=True)
+        return "array", ConstantTensorInitializer(v), {"value": v}
     if kind == "const":
         v = gen.dy(rng, 1, 8, 4)
         return kind, ConstantTensorInitializer(v), {"value": v}
@@ -45,17 +52,22 @@ def build(rng):
     """a circuit whose sum layers (same shapes, hence foldable) use differently initialised weights"""
     nv = rng.choice([2, 3, 4])
     K, Ko = rng.choice([2, 3]), rng.choice([2, 3])
-    rank3 = rng.random() < 0.4
+    rank3_all = rng.random() < 0.4
+    mixed = rng.random() < 0.3          # ranks differ inside one frontier: several fold groups
     D = rng.choice([2, 3])
+    anyc = rng.random() < 0.25          # some tensors of complex data type
     layers, ins, leaves = [], {}, []
     sums = []
     for v in range(nv):
         il = L.EmbeddingLayer(Scope([v]), K, num_states=2, weight=P.Parameter.from_input(P.ConstantParameter(K, 2, value=1.0)))
         layers.append(il)
+        rank3 = (rng.random() < 0.5) if mixed else rank3_all
         shape = (D, Ko, K) if rank3 else (Ko, K)
-        kind, init, info = rand_init(rng, shape)
+        cplx = anyc and rng.random() < 0.6
+        kind, init, info = rand_init(rng, shape, cplx=cplx)
         learnable = rng.random() < 0.7
-        t = P.TensorParameter(*shape, initializer=init, learnable=learnable)
+        t = P.TensorParameter(*shape, initializer=init, learnable=learnable, dtype=DataType.COMPLEX if cplx else DataType.REAL)
+        info["complex"] = cplx
         leaves.append((t, kind, info, learnable))
         w = P.Parameter.from_unary(P.ReduceSumParameter(shape, axis=0), t) if rank3 else P.Parameter.from_input(t)
         sl = L.SumLayer(K, Ko, arity=1, weight=w)
@@ -70,17 +82,21 @@ def build(rng):
 
 
 def check_tensor(rep, desc, t, kind, info, learnable, val, when, pt):
-    tag = {"case": desc, "when": when, "initializer": kind, "info": {k: (v.tolist() if isinstance(v, np.ndarray) else v) for k, v in info.items()}}
+    tag = {"case": desc, "when": when, "initializer": kind, "info": {k: (str(v.tolist()) if isinstance(v, np.ndarray) else str(v) if isinstance(v, complex) else v) for k, v in info.items()}}
     if tuple(val.shape) != tuple(t.shape):
         rep.violation("init-slice-shape", "the slice representing the parameter has the wrong shape", {**tag, "observed": list(val.shape)})
         return
     if bool(pt.requires_grad) != bool(learnable):
         rep.violation("init-requires-grad", "requires_grad does not match the learnable flag", {**tag, "observed": bool(pt.requires_grad)})
+    if bool(np.iscomplexobj(val)) != bool(info.get("complex")):
+        rep.violation("init-dtype", "the compiled tensor does not have the data type declared by the symbolic parameter",
+                      {**{k_: v_ for k_, v_ in tag.items() if k_ != "info"}, "observed": str(val.dtype), "declared_complex": bool(info.get("complex"))})
+        return
     if kind in ("const", "array"):
         exp = np.broadcast_to(np.asarray(info["value"]), t.shape)
         if not np.array_equal(val, exp):
             rep.violation("init-constant-slice", "a constant / array initialiser was not copied exactly into the parameter's slice",
-                          {**tag, "observed": val.tolist(), "expected": exp.tolist()})
+                          {**tag, "observed": str(val.tolist()), "expected": str(exp.tolist())})
     elif kind == "dirichlet":
         s = val.sum(axis=info["axis"])
         if not np.allclose(s, 1.0, atol=1e-9) or np.any(val < 0):
@@ -118,11 +134,16 @@ def one_case(rep, cs, seed, i):
     rep.count(f"flags:{int(fold)}{int(opt)}")
     rep.count(f"rank:{len(leaves[0][0].shape)}")
     try:
-        ctx = evalc.make_ctx("sum-product", fold, opt)
+        ctx = evalc.make_ctx("complex-lse-sum" if any(info.get("complex") for _, _, info, _ in leaves) else "sum-product", fold, opt)
         cc = ctx.compile(sc)
         state = ctx._compiler.state
         prev = {}
-        for when in ("compile", "reset-1", "reset-2"):
+        sem_used = "complex-lse-sum" if any(info.get("complex") for _, _, info, _ in leaves) else "sum-product"
+        for when in ("compile", "reset-1", "reset-after-update"):
+            if when == "reset-after-update":
+                with torch.no_grad():   # a training-like in-place change of every tensor, then reset
+                    for p_ in cc.parameters():
+                        p_.add_(torch.tensor(gen.dy(rng, 1, 3, 16), dtype=p_.dtype))
             if when != "compile":
                 cc.reset_parameters()
             for t, kind, info, learnable in leaves:
